@@ -66,7 +66,11 @@ WStateTraps(W) == ~W.latch.some /\ W.I.mode = "new"
 (* The page.  P == [W, full (isFullyInteractive), timers, shown (what the  *)
 (* user has been shown: output records and error records), inputOn]        *)
 (***************************************************************************)
-NewPage == [W |-> NewAdapter, full |-> TRUE, timers |-> 0, shown |-> <<>>, inputOn |-> TRUE]
+\* The page seeds the generator once, when it is created (main.ts: randomize(Date.now())); the checks use this fixed
+\* seed.  An interpreter created by NEW is NOT seeded again: it is a fresh one.
+PageSeed == B("987654321")
+SeededAdapter == [NewAdapter EXCEPT !.I = Step(NewAdapter.I, CRandomize(PageSeed)).I]
+NewPage == [W |-> SeededAdapter, full |-> TRUE, timers |-> 0, shown |-> <<>>, inputOn |-> TRUE]
 
 ShownErr(latch) == [t |-> "error", text |-> JoinWith(latch.caret.lines, <<LF>>), line |-> IF latch.res.hl THEN latch.res.line ELSE IMM,
                     what |-> latch.res.kind, unk |-> ~latch.caret.ok]
